@@ -584,8 +584,13 @@ pub fn refold(state3: &Value, final_bytes: &[u8]) -> DocTruth {
         for s in a {
             let id = s["keyid"].as_str().unwrap_or("").to_string();
             let sv = s["sig"].as_str().unwrap_or("").to_string();
-            if content_same && orig_pairs.contains(&(id.clone(), sv)) {
+            if content_same && orig_pairs.contains(&(id.clone(), sv.clone())) {
                 valid.insert(id.clone());
+            } else if content_same && id.chars().any(|c| c.is_ascii_uppercase()) && orig_pairs.contains(&(id.to_ascii_lowercase(), sv)) {
+                // the genuine signature under its key id re-spelled in upper-case hex: whether key ids are
+                // compared with or without regard to letter case is left open; under the weakest reading
+                // this is that key's valid signature
+                valid.insert(id.to_ascii_lowercase());
             }
             labels.push(id);
         }
